@@ -12,3 +12,12 @@ open WebPkg.C20
 #print axioms dir_walk_index_html
 #print axioms dir_walk_urls_distinct
 #print axioms dir_walk_length
+open WebPkg.C20Compose
+#print axioms gen_bundle_read_back
+#print axioms gen_bundle_dir_accepted
+#print axioms gen_signedexchange_verifies
+#print axioms gen_signedexchange_verifies_window
+#print axioms gen_certurl_signedexchange_verifies
+#print axioms sign_bundle_output_verifies
+#print axioms dir_bundle_signed_verifies
+#print axioms dir_bundle_integrity_block
